@@ -6,7 +6,7 @@ CONSTANTS
   MaxKw = 1
   MaxSteps = 3
   MaxRebind = 2
-  CtorModeSet = {"distinct", "boxed"}
+  CtorModeSet = {"distinct", "boxed", "asdefault"}
   CallModeSet = {"distinct", "asbound"}
   FlagAtSet = {"call"}
   AsCoded = FALSE
@@ -17,6 +17,7 @@ VIEW view
 INVARIANT TypeOK
 INVARIANT EffectiveWellDefined
 INVARIANT ResultComplete
+INVARIANT ReportedSetsAreEffective
 PROPERTY CallIsPure
 PROPERTY FullBindAgrees
 PROPERTY LateBindAgrees
